@@ -99,6 +99,7 @@ class Check:
             "conformance": {},
         }
         self.assumptions = []
+        self.hooks_off = False
         self._findings = self._load_findings()
         self._nrep = 0
 
@@ -143,28 +144,38 @@ class Check:
 
     # ------------------------------------------------------------------ harness
     def build_harness(self, timeout=900):
+        """cargo build of the harness against /repo. Falls back, in this order, to (1) the harness without
+        its optional API flavours, (2) a build in which the repository's verification hooks (the extra
+        #[push_state] structs, cfg unhindered_ec_verif) are NOT compiled: if one of those is what no
+        longer compiles, every check that does not need it still makes its observations (C19, which
+        needs the hook structs, reports their failure to compile itself)."""
         t = time.time()
-        env = dict(os.environ)
-        env["CARGO_NET_OFFLINE"] = "true"
-        p = subprocess.run(["cargo", "build", "--offline", "--bin", "vh"], cwd=HARNESS, env=env,
-                           stdout=subprocess.PIPE, stderr=subprocess.STDOUT, text=True,
-                           timeout=timeout)
-        if p.returncode != 0:
-            # optional API flavours (selectors on non-slice populations) may be what does not compile:
-            # fall back to the core harness so that every other observation is still made
-            first = p.stdout
-            p = subprocess.run(["cargo", "build", "--offline", "--bin", "vh", "--no-default-features"],
-                               cwd=HARNESS, env=env, stdout=subprocess.PIPE, stderr=subprocess.STDOUT,
-                               text=True, timeout=timeout)
+        base = dict(os.environ)
+        base["CARGO_NET_OFFLINE"] = "true"
+        nohooks = dict(base)
+        nohooks["RUSTFLAGS"] = "--check-cfg cfg(unhindered_ec_verif)"       # overrides the config's --cfg
+        attempts = [([], base, None),
+                    (["--no-default-features"], base,
+                     "WITHOUT the optional flavours (selectors on a VecDeque, erased selector with a custom error "
+                     "type, zero-length array conversions)"),
+                    ([], nohooks, "WITHOUT the repository's verification hooks (cfg unhindered_ec_verif off)"),
+                    (["--no-default-features"], nohooks, "WITHOUT the optional flavours and WITHOUT the verification hooks")]
+        first = None
+        for extra, env, what in attempts:
+            p = subprocess.run(["cargo", "build", "--offline", "--bin", "vh"] + extra, cwd=HARNESS, env=env,
+                               stdout=subprocess.PIPE, stderr=subprocess.STDOUT, text=True, timeout=timeout)
             if p.returncode == 0:
-                errs = [ln for ln in first.splitlines() if ln.startswith("error")][:3]
-                log("note: the harness was built WITHOUT the optional flavours "
-                    "(selectors on a VecDeque, erased selector with a custom error type, zero-length array conversions): " + " | ".join(errs))
-                self.assumptions.append("the optional flavours (selectors on a VecDeque, erased selector with a custom error type, "
-                                        "zero-length array conversions) did not compile against this tree and were left out: " + " | ".join(errs))
+                if what:
+                    errs = [ln for ln in first.splitlines() if ln.startswith("error")][:3]
+                    log(f"note: the harness was built {what}: " + " | ".join(errs))
+                    self.assumptions.append(f"the harness was built {what} because the full build did not compile "
+                                            "against this tree: " + " | ".join(errs))
+                    self.hooks_off = env is nohooks
+                break
+            first = first or p.stdout
         self.cov["conformance"]["harness_build_s"] = round(time.time() - t, 1)
         if p.returncode != 0:
-            tail = "\n".join(p.stdout.splitlines()[-60:])
+            tail = "\n".join(first.splitlines()[-60:])
             raise ToolError("harness build failed (the repository under test does not compile "
                             "against the harness):\n" + tail)
 
